@@ -437,9 +437,11 @@ class DAGRunConcurrentManager(DAGRunManagerLike):
         Get the node's predecessors
         """
 
-        if self._is_switch(node_id) and not dag.is_recurrent:
+        if self._is_switch(node_id):
             # The switch node can be resolved as soon as the switch decision is known. It must not wait for the case
-            # nodes which are in the current DAG only because other nodes depend on them.
+            # nodes which are in the current DAG only because other nodes depend on them. This holds for a restarted
+            # recurrent subgraph as well: its DAG does not contain the case edges, so nothing orders a case node that is
+            # a part of it before the switch.
             predecessors = [
                 pred_id for pred_id in self.dag.graph.predecessors(node_id)
                 if self.dag.graph.edges[(pred_id, node_id)].get(EdgeField.is_switch)
@@ -448,7 +450,7 @@ class DAGRunConcurrentManager(DAGRunManagerLike):
         else:
             predecessors = list(
                 self._get_node_dependencies(dag, node_id)
-                if self._is_switch(node_id) or self._is_head_of_oneof(node_id) or dag.is_recurrent
+                if self._is_head_of_oneof(node_id) or dag.is_recurrent
                 else self.dag.graph.predecessors(node_id),
             )
 
